@@ -18,6 +18,8 @@ import (
 	"github.com/libp2p/go-libp2p-pubsub/partialmessages"
 	pb "github.com/libp2p/go-libp2p-pubsub/pb"
 	"github.com/libp2p/go-libp2p/core/peer"
+	"github.com/libp2p/go-libp2p/core/record"
+	circuitproto "github.com/libp2p/go-libp2p/p2p/protocol/circuitv2/proto"
 	"pgregory.net/rapid"
 )
 
@@ -60,7 +62,7 @@ type c12RPCSpec struct {
 	Idw    int          `json:"idontwant,omitempty"`
 	Graft  []c12Str     `json:"graft,omitempty"`
 	Prune  []c12Str     `json:"prune,omitempty"`
-	PX     int          `json:"px,omitempty"` // 0 none 1 junk records 2 nil ids 3 a valid record under another id 4 many
+	PX     int          `json:"px,omitempty"` // 0 none 1 junk records 2 nil ids 3 a valid record under another id 4 many 5 valid 6 signed envelope of another record type 7 unsigned peer record
 	Backoff int         `json:"backoff,omitempty"` // 0 absent 1 zero 2 huge
 	Ext    int          `json:"ext,omitempty"` // 0 none 1 empty 2 both set
 	Partial int         `json:"partial,omitempty"` // 0 none 1 empty 2 nil topic 3 known topic 4 huge group
@@ -112,7 +114,7 @@ func c12Gen(rt *rapid.T) c12Case {
 			for k := 0; k < rapid.SampledFrom([]int{0, 1, 2, 30}).Draw(rt, "nprune"); k++ {
 				r.Prune = append(r.Prune, c12GenStr(rt, "prune"))
 			}
-			r.PX = rapid.IntRange(0, 4).Draw(rt, "pxkind")
+			r.PX = rapid.IntRange(0, 7).Draw(rt, "pxkind")
 			r.Backoff = rapid.IntRange(0, 2).Draw(rt, "backoff")
 			r.Ext = rapid.IntRange(0, 2).Draw(rt, "extk")
 			r.EmptyCtl = true
@@ -264,6 +266,17 @@ func c12Build(spec c12RPCSpec, self *vfIdent) *RPC {
 				for k := 0; k < 200; k++ {
 					pr.Peers = append(pr.Peers, &pb.PeerInfo{PeerID: []byte(vfPeer(20 + k%10).ID)})
 				}
+			case 5:
+				pr.Peers = []*pb.PeerInfo{{PeerID: []byte(vfPeer(23).ID), SignedPeerRecord: c09SealRecord(vfPeer(23))}}
+			case 6:
+				// a correctly signed envelope in the peer-record domain whose payload is another record type every libp2p
+				// host has registered (a relay reservation voucher)
+				pr.Peers = []*pb.PeerInfo{{PeerID: []byte(vfPeer(24).ID), SignedPeerRecord: c12SealOtherRecord(vfPeer(24))}}
+			case 7:
+				// the envelope's signature does not verify
+				b := c09SealRecord(vfPeer(25))
+				b[len(b)-1] ^= 0x55
+				pr.Peers = []*pb.PeerInfo{{PeerID: []byte(vfPeer(25).ID), SignedPeerRecord: b}}
 			}
 			ctl.Prune = append(ctl.Prune, pr)
 		}
@@ -592,4 +605,22 @@ func FuzzVfC12(f *testing.F) {
 		}
 		c12FuzzOne(t, data, cfgBits)
 	})
+}
+
+// c12DomainSwap presents a record of another type under the peer-record envelope domain.
+type c12DomainSwap struct{ record.Record }
+
+func (c12DomainSwap) Domain() string { return peer.PeerRecordEnvelopeDomain }
+
+func c12SealOtherRecord(id *vfIdent) []byte {
+	v := &circuitproto.ReservationVoucher{Relay: id.ID, Peer: vfPeer(26).ID, Expiration: time.Unix(4102444800, 0)}
+	env, err := record.Seal(c12DomainSwap{v}, id.Priv)
+	if err != nil {
+		panic(err)
+	}
+	b, err := env.Marshal()
+	if err != nil {
+		panic(err)
+	}
+	return b
 }
